@@ -16,9 +16,17 @@ from . import parser_rules as pr
 GQ = "gherkin.stream.id_generator.IdGenerator"
 
 
+_SCOPE: list = [None]        # module-name suffixes the state rules are restricted to while a scoped property runs (None = whole package)
+
+
+def _in_scope(modname: str) -> bool:
+    sc = _SCOPE[0]
+    return sc is None or any(modname == "gherkin." + x or modname.endswith("." + x) for x in sc)
+
+
 def _pkg_functions():
     for fi in facts().all_functions():
-        if fi.module.name == "gherkin.inout":
+        if fi.module.name == "gherkin.inout" or not _in_scope(fi.module.name):
             continue
         yield fi
 
@@ -140,7 +148,7 @@ def rule_shared(rep: Report, rid="C15.shared") -> None:
                            function=fi.qualname, expected="instance attributes only", found=unparse(n))
     nattr = 0
     for m in f.modules.values():
-        if m.name == "gherkin.inout":
+        if m.name == "gherkin.inout" or not _in_scope(m.name):
             continue
         for c in m.classes.values():
             if c.is_typeddict or any(x.is_typeddict for x in c.mro()):
@@ -173,7 +181,7 @@ def rule_shared(rep: Report, rid="C15.shared") -> None:
     rep.counts["class attributes inspected"] = nattr
     # module-level mutable objects other than the dialect table
     for m in f.modules.values():
-        if m.name == "gherkin.inout":
+        if m.name == "gherkin.inout" or not _in_scope(m.name):
             continue
         for name, val in m.globals.items():
             mutable = isinstance(val, (ast.List, ast.Dict, ast.Set)) and name not in ("RULE_TYPE", "__all__")
@@ -331,17 +339,48 @@ def rule_iterators(rep: Report, rid="C15.iter", files=None) -> None:
            found=f"{nb} local iterator binding(s) inspected")
 
 
+# the modules whose behaviour each property is a statement about (a hidden state elsewhere cannot break it)
+ALL = None
+FRONT = ("token_scanner", "gherkin_line", "token", "token_matcher", "dialect", "parser", "errors")
+SCOPES = {
+    "C01": ALL, "C15": ALL,
+    "C02": FRONT + ("ast_builder", "ast_node"),
+    "C03": FRONT + ("ast_builder", "ast_node"),
+    "C04": FRONT + ("ast_builder", "ast_node"),
+    "C05": FRONT + ("ast_builder", "ast_node"),
+    "C06": ("compiler",), "C07": ("compiler",), "C08": ("compiler",), "C09": ("compiler",),
+    "C10": ("compiler", "token_matcher", "dialect", "gherkin_line", "ast_builder", "ast_node", "parser"),
+    "C11": ("compiler", "ast_builder", "ast_node", "id_generator", "gherkin_events", "parser"),
+    "C12": FRONT + ("ast_builder", "ast_node"),
+    "C13": FRONT + ("ast_builder", "ast_node"),
+    "C14": FRONT + ("ast_builder", "ast_node", "gherkin_events"),
+    "C16": FRONT + ("ast_builder", "ast_node", "source_events", "compiler"),
+    "C17": ("gherkin_events", "source_events", "id_generator", "compiler", "parser", "errors", "ast_builder", "ast_node"),
+    "C18": ("token_scanner", "gherkin_line", "token", "parser", "errors", "token_formatter_builder", "token_matcher", "dialect"),
+    "C19": ("token_matcher_markdown", "token_matcher", "dialect", "gherkin_line", "token", "token_scanner"),
+}
+CLASS_MODULE = {"gherkin.token_matcher.TokenMatcher": "token_matcher", "gherkin.token_matcher_markdown.GherkinInMarkdownTokenMatcher": "token_matcher_markdown",
+                "gherkin.ast_builder.AstBuilder": "ast_builder", "gherkin.token_formatter_builder.TokenFormatterBuilder": "token_formatter_builder"}
+
+
 def rule_stateless(rep: Report, prefix: str) -> None:
-    """Nothing survives from one call / instance / document to the next except through the documented state: the rules every
-    property depends on, because any hidden state makes a second use behave differently from the first."""
+    """Nothing survives from one call / instance / document to the next except through the documented state - in the modules
+    the property is about: any hidden state there makes a second use behave differently from the first."""
     from . import matcher_rules as mr, dialect_rules as dr
-    mr.rule_reset(rep, f"{prefix}.reset", classes=(mr.MQ, "gherkin.token_matcher_markdown.GherkinInMarkdownTokenMatcher",
-                                                  "gherkin.ast_builder.AstBuilder", "gherkin.token_formatter_builder.TokenFormatterBuilder"))
-    rule_inst(rep, f"{prefix}.inst")
-    rule_shared(rep, f"{prefix}.shared")
-    dr.rule_shared_table(rep, f"{prefix}.shared")
-    rule_memo(rep, f"{prefix}.memo")
-    rule_iterators(rep, f"{prefix}.iter")
+    scope = SCOPES.get(prefix, ALL)
+    _SCOPE[0] = scope
+    try:
+        classes = tuple(c for c, m_ in CLASS_MODULE.items() if scope is None or m_ in scope)
+        if classes:
+            mr.rule_reset(rep, f"{prefix}.reset", classes=classes)
+        rule_inst(rep, f"{prefix}.inst")
+        rule_shared(rep, f"{prefix}.shared")
+        if scope is None or "dialect" in scope:
+            dr.rule_shared_table(rep, f"{prefix}.shared")
+        rule_memo(rep, f"{prefix}.memo")
+        rule_iterators(rep, f"{prefix}.iter")
+    finally:
+        _SCOPE[0] = None
 
 
 def rule_inst(rep: Report, rid="C15.inst") -> None:
@@ -349,6 +388,8 @@ def rule_inst(rep: Report, rid="C15.inst") -> None:
     f = facts()
     for cq, ctor_only in (("gherkin.parser.Parser", True), ("gherkin.pickles.compiler.Compiler", True), ("gherkin.parser.ParserContext", True),
                           ("gherkin.stream.gherkin_events.GherkinEvents", True)):
+        if not _in_scope(cq.rsplit(".", 1)[0]):
+            continue
         cls = f.cls(cq)
         n_sites = 0
         for fi in cls.methods.values():
